@@ -195,6 +195,11 @@ def _parts(E, T, n, with_density_tag):
         if with_density_tag[i] == 'element':
             txt = str(A[0].symbol)
             f = formulas.formula(A[0])
+        elif with_density_tag[i] == 'element_counted':
+            # a single element written with a count ("2Fe", "Fe3"): still that element's density
+            l1 = sp.Lit(E, 'p%d_a' % i, 'whole')
+            txt = (l1.text + str(A[0].symbol)) if i % 2 == 0 else (str(A[0].symbol) + l1.text)
+            f = formulas.formula([(l1.value, A[0])], density=A[0].density)
         else:
             l1 = sp.Lit(E, 'p%d_a' % i, 'whole')
             l2 = sp.Lit(E, 'p%d_b' % i, 'fract')
@@ -426,7 +431,10 @@ def cases(tier):
            ('weight', 'mass%', '%', 2, [True, True]), ('weight', ' weight %', '%', 2, ['element', False]),
            ('volume', 'vol%', '%', 3, [True, 'element', True]), ('volume', '%vol', 'vol%', 2, ['element', True]),
            ('volume', 'volume%', '%', 2, [True, False]), ('weight', '%w', '%', 2, [True, True]), ('volume', 'v%', '%', 2, [True, True]),
-           ('weight', '%mass', '% mass', 2, [True, True]), ('weight', 'm%', 'wt %', 2, [True, True])]
+           ('weight', '%mass', '% mass', 2, [True, True]), ('weight', 'm%', 'wt %', 2, [True, True]),
+           ('volume', 'vol%', 'vol%', 3, [True, 'element_counted', True]), ('weight', 'wt%', 'wt%', 3, ['element_counted', True, False]),
+           ('volume', '%vol', ' volume %', 3, ['element_counted', 'element_counted', 'element']),
+           ('weight', '%mass', '% mass', 3, [True, 'element', True])]
     for kind, w, later, n, dens in pct:
         out.append(Case('string_percent[%s|%s|%s|n=%d|%s]' % (kind, w.strip(), later.strip(), n, dens), _percent_case(kind, w, later, n, dens),
                         max_paths=mp, timeout_ms=to, float_modules=()))
